@@ -69,4 +69,20 @@ def finalize (p : Reprice) (reverted : Bool) (newRate : Rate) (toQi : Bool) : Ou
   if reverted then .revert p.original
   else .conversion (if toQi then quaiToQi newRate (repriced p) else qiToQuai newRate (repriced p))
 
+/-- One inbound ETX as `ComputeConversionAmountInQuai` sees it. -/
+inductive VolItem where
+  | toQi (quai : Nat)      -- Quai -> Qi conversion: carries Quai
+  | toQuai (qi : Nat)      -- Qi -> Quai conversion: carries Qi, valued at the block's rate (miner difficulty)
+  | other                  -- not a conversion
+  deriving Repr
+
+/-- `misc.ComputeConversionAmountInQuai`: the conversion volume of a prime block, in Quai; the quantity the cubic
+discount of the block is read from.  `r` is the rate at the block's *miner* difficulty. -/
+def volumeOf (r : Rate) : VolItem → Nat
+  | .toQi q => q
+  | .toQuai u => qiToQuai r u
+  | .other => 0
+
+def volume (r : Rate) (l : List VolItem) : Nat := (l.map (volumeOf r)).sum
+
 end QuaiVerif.Convert
